@@ -540,3 +540,18 @@ Proof.
   intros Hk Hinj Hne. rewrite <- (weight_full k ss Hne).
   exact (proj2 (proj2 (proj2 (post_process_conserves h nt ss k Hk Hinj)))).
 Qed.
+
+(* balance of the stored rows in the additive form used for merging (no node-by-node reading) *)
+Lemma post_process_balanced h nt ss k :
+  (k < nt)%nat -> parent_determined h (triples h ss) ->
+  let t := post_process h nt ss in
+  (forall x, x <> 0%N -> eqm (tot_at k t x) (self_at k t x + child_tot k t x)) /\
+  eqm (child_tot k t 0%N) (weight k ss).
+Proof.
+  intros Hk Hinj t.
+  destruct (fold_spec h (triples h ss) Hinj k nt Hk ss [] (inv_nil _ _ _) (bal_nil k) (incl_refl _))
+    as (_ & Hbal & Hroot).
+  subst t. unfold post_process. split.
+  - intros x Hx. rewrite (Hbal x Hx). apply eqm_of_eq. lia.
+  - rewrite Hroot. apply eqm_of_eq. reflexivity.
+Qed.
